@@ -69,6 +69,25 @@ Section Fr.
     destruct (_ <? 2); [exact HP|]. destruct (rd_data bs bad s1 _); exact HP.
   Qed.
 
+  Lemma load_ext_pos s n : pos (snd (load_ext bad s n)) = pos s.
+  Proof. unfold load_ext. destruct (rd_ext bad s n); reflexivity. Qed.
+
+  Lemma read_next_pos s : pos (snd (read_next bs ofs bad s)) = pos s.
+  Proof.
+    unfold read_next.
+    set (P := if ndb s =? 0 then _ else _).
+    assert (HP : pos (snd (fst P)) = pos s).
+    { subst P. destruct (ndb s =? 0); [reflexivity|]. destruct (ndb s <? MAXDB); [reflexivity|].
+      set (Q := if ndb s =? MAXDB then _ else _).
+      assert (HQ : pos (snd Q) = pos s).
+      { subst Q. destruct (ndb s =? MAXDB).
+        - rewrite load_ext_pos. destruct (cext s); reflexivity.
+        - destruct (pinx s =? MAXDB); [apply load_ext_pos|reflexivity]. }
+      destruct Q as (okx, sx). destruct okx; exact HQ. }
+    destruct P as ((ok1, s1), nt). cbn [fst snd] in HP. destruct ok1; cbn [negb]; [|exact HP].
+    destruct (_ <? 2); [exact HP|]. destruct (rd_data bs bad s1 _); exact HP.
+  Qed.
+
   Lemma seek_start_dk s : dk (snd (seek_start bs ofs bad s)) = dk s.
   Proof.
     unfold seek_start. set (s0 := set_cur _ 0). destruct (fsize s0 =? 0); [reflexivity|].
